@@ -10,6 +10,7 @@ pub mod sel;
 pub mod stack;
 pub mod time;
 pub mod timeouts;
+pub mod trap;
 pub mod tlcache;
 
 pub static ALL: &[Comp] = &[
@@ -25,5 +26,6 @@ pub static ALL: &[Comp] = &[
     Comp { name: "beans", gen: beans::gen, exec: beans::exec, isolate_ms: 10000 },
     Comp { name: "sel", gen: sel::gen, exec: sel::exec, isolate_ms: 8000 },
     Comp { name: "stack", gen: stack::gen, exec: stack::exec, isolate_ms: 10000 },
+    Comp { name: "trap", gen: trap::gen, exec: trap::exec, isolate_ms: 10000 },
     Comp { name: "pq", gen: queue::gen_pq, exec: queue::exec_pq, isolate_ms: 500 },
 ];
